@@ -164,6 +164,8 @@ def elimination_rule(ctx):
         _Solver_Apply_Neumann=lambda pt: b,
         _Solver_Apply_Dirichlet=lambda pt, bb, res: (A, x),
         Bc_dofs_known_unknown=lambda pt: (K, U),
+        # the raw Dirichlet list (one entry per prescription, duplicates kept) is a different index set
+        Bc_dofs_Dirichlet=lambda pt=None: Sel("Kraw"),
         Get_x0=lambda pt: SVec.atom("x0"),
         Get_lb_ub=lambda pt: ([], []),
         isNonLinear=False,
@@ -561,6 +563,57 @@ def run(ctx):
     complement_rule(ctx)
     duplicates_rule(ctx)
     lagrange_rule(ctx)
+    prescription_order_rule(ctx)
     orphan_rule(ctx)
     dispatch_rule(ctx)
     incremental_rule(ctx)
+
+
+def prescription_order_rule(ctx):
+    """R4.8: add_dirichlet pairs the k-th prescribed value with the dof of the k-th node of the list AS GIVEN (unsorted
+    lists, repeated nodes): interpreted on a labelled node list with array-valued and constant prescriptions."""
+    from ..alg import Poly, is_zero
+    from ..xarray import Lbl, XArray
+
+    repo = ctx.repo
+    r = ctx.rule("R4.8", "add_dirichlet keeps the caller's node order and multiplicity: entry (k, d) of the prescription is (value d at the k-th listed node, dof(k-th listed node, unknown d))", min_instances=2)
+    simu = repo.cls(SIMU)
+    f = simu.methods["add_dirichlet"]
+    for tag, nodes in (("unsorted", [5, 2, 7]), ("repeated", [4, 1, 4])):
+        r.instance(fn=f.qualname)
+        cap = {}
+        g = [Poly.var(f"g{k}") for k in range(len(nodes))]
+        c = Poly.var("c")
+        obj = XObj(simu, dict(
+            problemType=Opaque("pt"), mesh=SimpleNamespace(coord=XArray((8, 3), [Poly.var(f"X{n}_{k}") for n in range(8) for k in range(3)])),
+            _Simu__Check_problemTypes=lambda pt: None, _Simu__Bc_check_inputs=lambda n, v, u: True,
+            Bc_dofs_nodes=lambda nn, unknowns, pt=None: XArray((len(list(nn)) * len(unknowns),), [Lbl("dof", int(n), u) for n in XArray.from_nested(nn).data for u in unknowns]),
+            _Bc_Add_Dirichlet=lambda pt, nn, vals, dofs, unknowns, desc="": cap.update(nodes=nn, vals=vals, dofs=dofs),
+        ))
+        I = Interp(repo, extra_builtins={"callable": callable})
+        if tag == "repeated":
+            g = [Poly.var("cx")] * len(nodes)  # constants only: an array on a repeated node is covered by the unsorted case
+            vals = [g[0], c]
+        else:
+            vals = [XArray((len(nodes),), list(g)), c]
+        try:
+            I.call_function(f, [XArray((len(nodes),), nodes), vals, ["x", "y"]], self_obj=obj)
+        except XRaise as e:
+            r.fail(f.qualname, tag, f.file, f.lineno, "_Simu.add_dirichlet", f"{tag} node list {nodes}: {e}")
+            continue
+        bad = None
+        if "vals" not in cap:
+            bad = "no Dirichlet condition recorded"
+        else:
+            v, d = XArray.from_nested(cap["vals"]), XArray.from_nested(cap["dofs"])
+            if v.size != 2 * len(nodes) or d.size != 2 * len(nodes):
+                bad = f"{v.size} values / {d.size} dofs recorded for {len(nodes)} listed nodes x 2 unknowns (a node listed twice must stay two prescriptions: their values add up)"
+            else:
+                for k, n in enumerate(nodes):
+                    for di, (u, want) in enumerate((("x", g[k]), ("y", c))):
+                        if d.data[2 * k + di] != Lbl("dof", n, u) or not is_zero(v.data[2 * k + di] - want):
+                            bad = f"entry ({k},{u}) is ({v.data[2 * k + di]!r}, {d.data[2 * k + di]!r}); expected ({want!r}, dof(node {n}, {u})): the value prescribed for one node lands on another"
+        if bad:
+            r.fail(f.qualname, tag, f.file, f.lineno, "_Simu.add_dirichlet", f"{tag} node list {nodes}: {bad}")
+        else:
+            r.ok(f"{tag} node list {nodes}: values and dofs paired in the caller's order")
